@@ -335,6 +335,8 @@ def classify(case, impl):
     if "phi" in impl and case["kind"] == "gram":
         phi = np.array(impl["phi"], dtype=float)
         tags.append("gram_nonfinite_components:" + str(int(sum(0 if np.all(np.isfinite(r)) else 1 for r in phi)) > 0))
+        good = int(sum(1 for r, v in zip(phi, impl["vals"]) if np.all(np.isfinite(r)) and v > 0))
+        tags.append("gram_checkable_components:" + ("0" if good == 0 else "1" if good == 1 else "2+"))
     if "error" in impl:
         tags.append("error:" + impl["error"])
     return tags
